@@ -6,6 +6,10 @@ import operator_common as O
 
 def run(res, tier, seed):
     res.trusted_base += [
+        'translator T3 (translate/t3_stencil.py): regenerates coq/gen/StencilGen.v from the bodies of NODE_APPLY_RESIDUAL_TAKE and '
+        'NODE_APPLY_A_GIVE on every run (branch conditions, local declarations, every write with target node, kind and value '
+        'expression); StencilTie.v proves the generated kernels equal to the model the other theorems are about; the translator '
+        'itself is validated by the K-matrix correspondence (the same model against the compiled kernels)',
         'hand-written model coq/theories/StencilDefs.v: [form] sums what every node scatters (NODE_APPLY_A_GIVE); tied by the '
         'K-matrix of C03 (the give and take matrices of the real operators equal the model rows the theorems are about)',
         'axioms under the R theorems: ClassicalDedekindReals.sig_forall_dec, sig_not_dec, FunctionalExtensionality.functional_extensionality_dep',
@@ -15,6 +19,10 @@ def run(res, tier, seed):
         'across the origin non-negativity is proved under art(0,.) = 0 (F9); for non-orthogonal mappings it is evaluated numerically',
         'the line blocks of the smoothers (principal submatrices) are covered with C06',
     ]
+    for n, ok, msg in C.run_translators(['t3_stencil']):
+        res.obligation('translator:' + n, ok, msg[-300:])
+        if not ok:
+            res.fail('translator:' + n, msg)
     cr = C.coq_build('C05')
     res.add_coq(cr)
     out = O.run(res, tier, seed, 'residual', ('give1', 'take'))
